@@ -2,3 +2,7 @@ import TradingVerif.Model.Num
 import TradingVerif.Model.Exchange
 import TradingVerif.Proto
 import TradingVerif.Model.Broker
+import TradingVerif.Model.Legacy
+import TradingVerif.Model.Transmitter
+import TradingVerif.Model.Env
+import TradingVerif.DriverUtil
